@@ -453,6 +453,30 @@ def r_rec_guard(cx):
         cx.ob("R-REC-GUARD", "limit-constant", okn,
               "nesting_too_deep compares the level with the constant %s" % (r[3][2] if okn else "?") if okn else
               "nesting_too_deep is not `level > constant` with a small constant", cx.where(g.d["span"]))
+        # room for what C04 quantifies over: macros nested 50 deep. One macro expansion costs at least c levels (the
+        # largest constant `next` adds on a path), so the limit must be at least 50 c - a necessary condition only (see
+        # the known finding of R-NEST-UNIT for why it is not sufficient on this tree)
+        if okn and cx.pid == "C04" and lvl is not None:
+            def addend(t, depth=0):
+                t = mir.strip_refs(t)
+                if depth > 12:
+                    return 0
+                if t[0] == "phi":
+                    return max([addend(o, depth + 1) for o in t[2]] or [0])
+                if t[0] == "bin" and t[1] in ("Add", "AddWithOverflow"):
+                    return addend(t[2], depth + 1) + addend(t[3], depth + 1)
+                if t[0] == "proj" and mir.strip_refs(t[1])[0] == "bin":
+                    return addend(t[1], depth + 1)
+                if t[0] == "const" and isinstance(t[2], int):
+                    return t[2]
+                return 0
+            c_ = addend(lvl)
+            L = r[3][2]
+            okr = c_ >= 1 and L >= 50 * c_
+            cx.ob("R-REC-GUARD", "limit-room", okr,
+                  "the limit %s leaves room for 50 macro expansions of %s levels each" % (L, c_) if okr else
+                  "the nesting limit %s is below 50 macro expansions at %s levels each: well-formed macros nested a few "
+                  "levels deep (inside pipelines) are refused as recursive" % (L, c_), cx.where(g.d["span"]))
 
 
 def _derives_from_next(a, depth=0):
@@ -578,6 +602,21 @@ def r_str_slice(cx):
         for bb, t in f.calls():
             full = t.get("callee_full") or ""
             c = f.callee(t) or ""
+            split_like = c.rsplit("::", 1)[-1] in ("split_at", "split_at_mut", "split_at_checked") and "str" in c or \
+                ("String" in c and c.rsplit("::", 1)[-1] in ("split_off", "truncate", "insert", "insert_str", "remove", "drain", "replace_range"))
+            if split_like and not (t["span"].get("exp") or "").startswith("macro"):
+                # byte offsets handed to str::split_at / String::truncate ... must be char boundaries as well
+                n += 1
+                offs = [x for x in f.arg_terms(bb)[1:2]]
+                ok = bool(offs) and all(_boundary_safe(b) or _behind_ascii_prefix(cx.f, f, bb, f.arg_terms(bb)[0], b) for b in offs) \
+                    if c.rsplit("::", 1)[-1] not in ("split_at_checked",) else True
+                cx.ob("R-STR-SLICE", "%s/slice%d" % (name, k), ok,
+                      "%s: %s at an offset that is a char boundary" % (name, c.rsplit("::", 1)[-1]) if ok else
+                      "%s calls %s with byte offset %s, which need not be a char boundary: a text with a multi-byte "
+                      "character there panics" % (name, c.rsplit("::", 1)[-1], [mir.show(b, maxd=3)[:40] for b in offs]),
+                      cx.where(t["span"]))
+                k += 1
+                continue
             if not ("for str>::index" in c or " str as std::ops::Index" in full or "String as std::ops::Index" in full
                     or "<str as std::ops::Index" in full):
                 continue
